@@ -58,3 +58,89 @@ store_harness!(c05_scrape_gate_empty_store, {
     }
     core::mem::forget(store);
 });
+
+/// filter image with `n_ids` ids, `n_auth` authors, `n_kinds` kinds (fixed values) and one optional
+/// tag constraint e:[ab]; since/until/limit arbitrary
+fn plan_filter(fb: &mut [u8; 160], n_ids: usize, n_auth: usize, n_kinds: usize, with_tag: bool, limit: u32, since: u64, until: u64) -> usize {
+    put16(fb, 4, n_ids);
+    put16(fb, 6, n_auth);
+    put16(fb, 8, n_kinds);
+    put_bytes(fb, 12, &limit.to_ne_bytes());
+    put_bytes(fb, 16, &since.to_ne_bytes());
+    put_bytes(fb, 24, &until.to_ne_bytes());
+    let mut q = 32;
+    if n_ids == 1 {
+        put_bytes(fb, q, &ID_A);
+        q += 32;
+    }
+    if n_auth == 1 {
+        put_bytes(fb, q, &PK_1);
+        q += 32;
+    }
+    if n_kinds == 1 {
+        put_bytes(fb, q, &1u16.to_ne_bytes());
+        q += 2;
+    }
+    let tl = if with_tag { enc_tags(&[&[1, 2]], b"eab", &mut fb[q..]) } else { enc_tags(&[], b"", &mut fb[q..]) };
+    q += tl;
+    put32(fb, 0, q);
+    q
+}
+
+macro_rules! plan_empty {
+    ($name:ident, $ids:expr, $auth:expr, $kinds:expr, $tag:expr) => {
+        store_harness!($name, {
+            let store = verif_store();
+            let since: u64 = kani::any();
+            let until: u64 = kani::any();
+            let limit: u32 = kani::any();
+            unsafe {
+                VERIF_NOW = kani::any();
+            }
+            let mut fb = [0u8; 160];
+            let n = plan_filter(&mut fb, $ids, $auth, $kinds, $tag, limit, since, until);
+            let fs: &[u8] = &fb[..n];
+            let filter: &Filter = unsafe { &*(fs as *const [u8] as *const Filter) };
+            // no scraping allowance at all: a filter that names ids, authors or tags must never need one
+            let r = store.find_events(filter, false, 0, 0, |_| ScreenResult::Match);
+            kani::cover!(since > until);
+            match r {
+                Ok((events, redacted)) => {
+                    assert!(events.is_empty() && !redacted);
+                    core::mem::forget(events);
+                }
+                Err(e) => {
+                    core::mem::forget(e);
+                    panic!("a filter naming ids, authors or tags was refused");
+                }
+            }
+            core::mem::forget(store);
+        });
+    };
+}
+
+//@ harness: c05_plan_author_kind_empty_store c05_plan_author_empty_store c05_plan_tag_empty_store
+//@ tier: quick
+//@ timeout: 700
+//@ mem: 16
+//@ covers: any
+//@ unwindset: put_bytes=80; heed::bytes_=260; heed::Table=6; memcmp.0=70; enc_tags=6; repeat::Repeat=190; Repeat.*try_fold=190; plan_filter=6
+//@ cbmc: --max-field-sensitivity-array-size 1100
+//@ encodes: Store::find_events (plan selection: author+kind / author / tag), Lmdb::akc_iter, Lmdb::ac_iter, Lmdb::tc_iter, the range-bound key builders, Filter accessors
+//@ bounds: fresh (empty) store; a filter naming one author and one kind / one author / one tag value (the instance) with ARBITRARY since, until (inverted windows included) and limit (0 included), an arbitrary clock and NO scraping allowance: the query is never refused as scraping, never panics in the window and limit arithmetic of its plan, and returns the empty answer without the redacted flag
+//@ outside: non-empty stores (find_events dereferences stored events, DESIGN.md 8.2); combined plans (author+tag, kind+tag); several list entries
+//@ assumes: Time::now stubbed to an arbitrary instant
+plan_empty!(c05_plan_author_kind_empty_store, 0, 1, 1, false);
+plan_empty!(c05_plan_author_empty_store, 0, 1, 0, false);
+plan_empty!(c05_plan_tag_empty_store, 0, 0, 0, true);
+
+//@ harness: c05_plan_ids_empty_store
+//@ tier: thorough
+//@ timeout: 3000
+//@ mem: 20
+//@ covers: any
+//@ unwindset: put_bytes=80; heed::bytes_=260; heed::Table=6; memcmp.0=70; enc_tags=6; repeat::Repeat=190; Repeat.*try_fold=190; plan_filter=6
+//@ cbmc: --max-field-sensitivity-array-size 1100
+//@ encodes: Store::find_events (ids plan), Store::get_event_by_id
+//@ bounds: the same for a filter naming one id (did not finish in 700 s: the ids plan goes through get_event_by_id, DESIGN.md 8.2)
+plan_empty!(c05_plan_ids_empty_store, 1, 0, 0, false);
